@@ -3,7 +3,7 @@ import common as C
 import lifeharness as L
 
 RULE = ("action sequences (length <= 25) over {start, stop, enter/leave the async context, send a valid broadcast to port i, another "
-        "socket occupies / releases port i} on a REAL SwitcherBridge with 1..4 ephemeral UDP ports; after every action: what the caller "
+        "socket occupies / releases port i, a start() whose task is cancelled while it is suspended in the bind of port k} on a REAL SwitcherBridge with 1..4 ephemeral UDP ports; after every action: what the caller "
         "saw (ok / OSError), is_running, whether a broadcast was delivered, and for every configured port whether the bridge still "
         "holds it (probe bind after the loop has cycled) are compared with the model; the Spec judge re-checks the invariant on the "
         "observed state; non-trivial = distinct (ports, action word)")
@@ -32,8 +32,10 @@ def _judge(a, out):
             ok = False
         if run == "0" and "1" in held:
             ok = False
-        if act in ("start", "enter") and res != "ok" and (held != prev_held or run != prev_run):
+        if (act in ("start", "enter") or act.startswith("cstart:")) and res != "ok" and (held != prev_held or run != prev_run):
             ok = False
+        if act.startswith("cstart:") and res == "ok" and prev_run == "0":
+            ok = False        # a cancelled start of a stopped bridge cannot have succeeded
         if (act in ("stop", "leave") or act.startswith("sstop:")) and (run != "0" or "1" in held or res != "ok"):
             ok = False
         if act.startswith("send:"):
@@ -51,7 +53,7 @@ def _in_domain(acts):
     started under; what happens to it when that loop is abandoned is not part of the property)"""
     maybe_running = False
     for a in acts:
-        if a in ("start", "enter"):
+        if a in ("start", "enter") or a.startswith("cstart:"):
             maybe_running = True
         elif a in ("stop", "leave") or a.startswith("sstop:"):
             maybe_running = False
@@ -66,7 +68,7 @@ def _known(a, out):
         return None
     running = False
     for act, o in zip(a["acts"], out.split(" ")):
-        if act in ("start", "enter") and running:
+        if (act in ("start", "enter") or act.startswith("cstart:")) and running:
             return "F9"
         parts = o.split(":")
         running = len(parts) > 1 and parts[1] == "1"
@@ -102,6 +104,14 @@ def gen(rng):
             continue
         acts.append("start" if k < 0.22 else "stop" if k < 0.4 else f"send:{i}" if k < 0.6 else f"occ:{i}" if k < 0.72 else f"rel:{i}" if k < 0.82
                     else "enter" if k < 0.9 else "leave")
+    return {"ports": n, "acts": acts}
+
+
+def gen_cancel(rng):
+    h = gen(rng)
+    n, acts = h["ports"], list(h["acts"])
+    for _ in range(rng.randrange(1, 4)):
+        acts.insert(rng.randrange(len(acts) + 1), f"cstart:{rng.randrange(n)}")
     return {"ports": n, "acts": acts}
 
 
@@ -178,6 +188,10 @@ def streams(ctx):
     ctx.run_cases(LIFE, "ports-handed-over-in-another-container", [{"ports": 3, "acts": ["as:set", "bad:2", "start", "send:0", "stop"]},
                                                                    {"ports": 3, "acts": ["as:tuple", "occ:1", "start", "send:0", "rel:1", "start", "send:2", "stop"]}]
                   + [gen_form(rng) for _ in range(ctx.n(20, 300))], exhaustive=False, sample_every=9)
+    # start() cancelled while it is suspended in the bind of port k (0 .. n-1), on a stopped and on a running bridge, then used on
+    cancels = [{"ports": n, "acts": [f"cstart:{k}"] + [f"send:{i}" for i in range(n)] + ["start", f"send:{k}", f"cstart:{k}", f"send:{k}", "stop", f"cstart:{(k + 1) % n}", "send:0", "start", "send:0", "stop"]}
+               for n in (1, 2, 3, 4) for k in range(n)]
+    ctx.run_cases(LIFE, "a-start-that-is-cancelled-at-the-k-th-bind", cancels + [gen_cancel(rng) for _ in range(ctx.n(20, 300))], exhaustive=False, sample_every=9)
     ctx.run_cases(LIFE, "the-same-bridge-object-under-one-event-loop-after-another", [{"ports": 2, "acts": ["start", "send:0", "stop", "newloop", "start", "send:1", "stop", "send:1"]}]
                   + [gen_newloop(rng) for _ in range(ctx.n(12, 200))], exhaustive=False, sample_every=5)
     ctx.run_cases(LIFE, "random-action-sequences", [gen(rng) for _ in range(ctx.n(110, 2500))], exhaustive=False, sample_every=50)
